@@ -13,6 +13,7 @@ NEUTRALS = []
 
 # changes made by sub-agents that were given only the property text (see /verif/seeded/<id>/): each must stay reported
 SEEDED = [
+    {'name': 'seeded change C17-r3', 'seed': 'C17-r3', 'expect': '|TOTAL-ord|'},
     {'name': 'seeded change C17-r2', 'seed': 'C17-r2', 'expect': '|GROUPBY|'},
 ]
 MUTANTS += SEEDED
